@@ -27,6 +27,9 @@ type c16Params struct {
 	Positions []int `json:"positions,omitempty"`
 	// Content class of file A ("random" or "crctwins").
 	Content string `json:"content,omitempty"`
+	// Twin adds a third protected file that stays intact: "copy" = an exact
+	// copy of A, "prefix" = A's first slices followed by other content.
+	Twin string `json:"twin,omitempty"`
 }
 
 func init() {
@@ -61,7 +64,11 @@ func (c *c16) Cases(tier string, seed int64) []core.Case {
 				// distinct slices that share their CRC-32 with a neighbour
 				content = "crctwins"
 			}
-			cs = append(cs, core.MkCase(fmt.Sprintf("grid-s%d-n%d-%s", s, n, content), c16Params{Seed: r.Int63(), Slice: s, LenA: n, LenB: s + 1 + r.Intn(2*s), Stride: 1, Repair: rep, Content: content}))
+			twin := ""
+			if content == "random" && s >= 8 {
+				twin = []string{"copy", "prefix"}[(s/4)%2]
+			}
+			cs = append(cs, core.MkCase(fmt.Sprintf("grid-s%d-n%d-%s%s", s, n, content, twin), c16Params{Seed: r.Int63(), Slice: s, LenA: n, LenB: s + 1 + r.Intn(2*s), Stride: 1, Repair: rep, Content: content, Twin: twin}))
 		}
 	}
 	// files larger than 16 KiB (the first-16-KiB hash boundary): edits around
@@ -141,6 +148,13 @@ func (c *c16) Run(cs core.Case) core.Result {
 		{Name: "A.bin", Data: scen.GenData(rng, map[bool]string{true: p.Content, false: "random"}[p.Content != ""], p.LenA, s)},
 		{Name: "sub/B.bin", Data: scen.GenData(rng, "random", p.LenB, s)},
 	}}
+	switch p.Twin {
+	case "copy":
+		set.Files = append(set.Files, scen.File{Name: "copy of A.bin", Data: append([]byte(nil), set.Files[0].Data...)})
+	case "prefix":
+		k := ((p.LenA / s) + 1) / 2 * s
+		set.Files = append(set.Files, scen.File{Name: "same header.bin", Data: append(append([]byte(nil), set.Files[0].Data[:k]...), scen.GenData(rng, "random", s+1+rng.Intn(s), s)...)})
+	}
 	// History: the same process first scans a damaged set with a DIFFERENT
 	// slice size, so any state that survives between operations (cached
 	// tables, pools) would be exercised.
@@ -208,6 +222,7 @@ func (c *c16) Run(cs core.Case) core.Result {
 		env.st = st
 		env.sync()
 		wit := st.Witnessed()
+		byContent := st.WitnessedByContent()
 		if formula != nil {
 			// cross-check the model against the closed formula (file A only)
 			for i := 0; i < nA; i++ {
@@ -217,6 +232,8 @@ func (c *c16) Run(cs core.Case) core.Result {
 				}
 			}
 		}
+		// identical slices elsewhere (the intact twin file) keep a touched slice alive
+		wit = byContent
 		findable, skip := st.Find()
 		coincidence := false
 		for w := range wit {
@@ -301,6 +318,41 @@ func (c *c16) Run(cs core.Case) core.Result {
 			if len(r.Done().More) > 6 {
 				goto out
 			}
+		}
+	}
+	// damage and insertions whose windows have the CRC-32 of a protected slice
+	// but not its bytes (the scanner's cheap test passes, the MD5 does not)
+	if s >= 8 {
+		dataA := set.Files[0].Data
+		for k := 0; k < 12; k++ {
+			if p.LenA < 6 {
+				break
+			}
+			pos := rng.Intn(p.LenA - 5)
+			if k < 4 {
+				pos = (pos / s) * s // first bytes of a slice
+			}
+			pat := scen.CRCPreservingPattern(rng.Intn(8))
+			g := make([]byte, 6)
+			for i := range g {
+				g[i] = dataA[pos+i] ^ pat[i]
+			}
+			judge("crc-preserving-overwrite", pos, 6, []scen.Op{{Kind: "overwrite", A: 0, Pos: pos, G: g}}, nil)
+		}
+		for k := 0; k < 12; k++ {
+			// a whole window = some full slice of A xor the pattern, inserted at pos
+			j := rng.Intn(p.LenA / s)
+			g := append([]byte(nil), dataA[j*s:(j+1)*s]...)
+			pat := scen.CRCPreservingPattern(rng.Intn(8))
+			off := rng.Intn(s - 5)
+			for i := range pat {
+				g[off+i] ^= pat[i]
+			}
+			pos := rng.Intn(p.LenA + 1)
+			if k%2 == 0 {
+				pos = (pos / s) * s
+			}
+			judge("insert-crc-twin-of-slice", pos, s, []scen.Op{{Kind: "insert", A: 0, Pos: pos, G: g}}, touchedByFormula("insert", p.LenA, s, pos, s))
 		}
 	}
 	// content under another protected name
